@@ -106,9 +106,9 @@ example : ([1, 2, 3] : List Nat) <+: [1, 2, 3, 4, 5] := by decide
 /-- A body cut short is reported: consuming more than the stream holds returns
 ARCHIVE_FATAL (-30), whatever the source's blocks and a well-behaved skipper do. -/
 theorem consume_short_is_fatal (s : State) (n : Nat) (hi : Inv s) (hf : s.fatal = false)
-    (hsk : SkipsOk s.skips) (hlt : (remaining s).length < n) :
+    (hsk : SkipsOk s.skips) (hns : NoSeekSkip s) (hlt : (remaining s).length < n) :
     (consume s n).1 = -30 := by
-  have hc := (consume_refines s n hi hsk).2.1
+  have hc := (consume_refines s n hi hsk hns).2.1
   rw [hc]
   have h1 : ¬ ((n : Int) < 0) := by omega
   have h2 : ¬ ((n : Int) = 0) := by omega
@@ -120,8 +120,9 @@ theorem consume_short_is_fatal (s : State) (n : Nat) (hi : Inv s) (hf : s.fatal 
 was asked for, at any invocation: the call in progress reports failure and the
 filter is marked failed. -/
 theorem callback_fault_is_fatal (s : State) (n : Nat) (hi : Inv s) (hf : s.fatal = false) (hn : 0 < n)
+    (hns : NoSeekSkip s)
     (hneg : (advance s n).1 < 0) : (advance s n).2.fatal = true := by
-  obtain ⟨_, _, _, g4⟩ := advance_spec s n hi hf hn
+  obtain ⟨_, _, _, g4⟩ := advance_spec s n hi hf hn hns
   rcases g4 with ⟨a1, _⟩ | ⟨a1, _⟩ | ⟨_, a2, _⟩
   · omega
   · omega
@@ -154,7 +155,7 @@ def windows : State → List Op → List (List Nat)
     | _ => windows (RA.ahead s min).2 ops
   | s, .consume n :: ops => windows (RA.consume s n).2 ops
 
-theorem consume_suffix (s : State) (n : Int) (hi : Inv s) :
+theorem consume_suffix (s : State) (n : Int) (hi : Inv s) (hns : NoSeekSkip s) :
     Inv (consume s n).2 ∧ ∃ k, remaining (consume s n).2 = (remaining s).drop k := by
   unfold consume
   by_cases h1 : n < 0
@@ -166,7 +167,7 @@ theorem consume_suffix (s : State) (n : Int) (hi : Inv s) :
       · simp only [advance, hf, if_true]
         split <;> exact ⟨hi, 0, by simp⟩
       · have hf' : s.fatal = false := by simpa using hf
-        obtain ⟨g1, _, g3, _⟩ := advance_spec s n.toNat hi hf' (by omega)
+        obtain ⟨g1, _, g3, _⟩ := advance_spec s n.toNat hi hf' (by omega) hns
         generalize advance s n.toNat = r at *
         obtain ⟨a, b⟩ := r
         simp only [] at g1 g3 ⊢
@@ -176,7 +177,7 @@ theorem consume_suffix (s : State) (n : Int) (hi : Inv s) :
 (including failing and misbehaving ones) and every sequence of interface
 operations, each window a parser is given is a contiguous piece of the original
 stream. -/
-theorem no_invented_data (s : State) (ops : List Op) (hi : Inv s)
+theorem no_invented_data (s : State) (ops : List Op) (hi : Inv s) (hns : NoSeekSkip s)
     (hmin : ∀ op ∈ ops, match op with | .ahead m => m ≤ 2 ^ 62 | .consume _ => True) :
     ∀ w ∈ windows s ops, ∃ k, w <+: (remaining s).drop k := by
   induction ops generalizing s with
@@ -186,14 +187,16 @@ theorem no_invented_data (s : State) (ops : List Op) (hi : Inv s)
       fun o ho => hmin o (List.mem_cons_of_mem _ ho)
     cases op with
     | consume n =>
-      obtain ⟨i1, k, hk⟩ := consume_suffix s n hi
+      obtain ⟨i1, k, hk⟩ := consume_suffix s n hi hns
+      have hns' := noSeekSkip_of_static (consume_static s n).1 hns
       intro w hw
       simp only [windows] at hw
-      obtain ⟨k', hk'⟩ := ih _ i1 hmin' w hw
+      obtain ⟨k', hk'⟩ := ih _ i1 hns' hmin' w hw
       exact ⟨k + k', by rw [hk, List.drop_drop] at hk'; exact hk'⟩
     | ahead m =>
       have hm : m ≤ 2 ^ 62 := hmin (.ahead m) (by simp)
       obtain ⟨i1, _, _, _, _⟩ := ahead_refines s m hi hm
+      have hns' := noSeekSkip_of_static (ahead_static s m) hns
       have hrem : (RA.ahead s m).2.fatal = false → remaining (RA.ahead s m).2 = remaining s := by
         intro hnf
         unfold RA.ahead at hnf ⊢
@@ -218,9 +221,9 @@ theorem no_invented_data (s : State) (ops : List Op) (hi : Inv s)
         · rename_i w0 fc hwin
           rcases List.mem_cons.mp hw with rfl | hw'
           · exact ⟨0, by simpa using (window_is_stream_prefix s m hi hm w fc hwin).1⟩
-          · obtain ⟨k, hk⟩ := ih _ i1 hmin' w hw'
+          · obtain ⟨k, hk⟩ := ih _ i1 hns' hmin' w hw'
             exact ⟨k, by rw [hr] at hk; exact hk⟩
-        · obtain ⟨k, hk⟩ := ih _ i1 hmin' w hw
+        · obtain ⟨k, hk⟩ := ih _ i1 hns' hmin' w hw
           exact ⟨k, by rw [hr] at hk; exact hk⟩
       · -- failed: use the generic suffix fact (`remaining` only shrinks)
         have hsuf : ∃ k, remaining (RA.ahead s m).2 = (remaining s).drop k := by
@@ -242,9 +245,9 @@ theorem no_invented_data (s : State) (ops : List Op) (hi : Inv s)
         · rename_i w0 fc hwin
           rcases List.mem_cons.mp hw with rfl | hw'
           · exact ⟨0, by simpa using (window_is_stream_prefix s m hi hm w fc hwin).1⟩
-          · obtain ⟨k, hk⟩ := ih _ i1 hmin' w hw'
+          · obtain ⟨k, hk⟩ := ih _ i1 hns' hmin' w hw'
             exact ⟨k0 + k, by rw [hk0, List.drop_drop] at hk; exact hk⟩
-        · obtain ⟨k, hk⟩ := ih _ i1 hmin' w hw
+        · obtain ⟨k, hk⟩ := ih _ i1 hns' hmin' w hw
           exact ⟨k0 + k, by rw [hk0, List.drop_drop] at hk; exact hk⟩
 
 end LA.C08
